@@ -45,7 +45,7 @@ CASE_TIMEOUT = {"quick": 20, "thorough": 60}
 OPS = {"arith", "math", "cond", "index", "tensor", "compound", "deriv", "pow", "abs", "var", "sign"}
 PROF = Profile(ops=OPS, leaves={"coef", "const", "lit", "x", "geo", "eye"}, max_rank=2, elements="all", manifolds=True,
                args=((0, "any"), (1, "any")))
-EDITS = ["literal", "literal", "fixed_index", "operator", "operator", "swap_operands", "element", "element", "cell", "gdim",
+EDITS = ["literal", "literal", "fixed_index", "index_pattern", "index_pattern", "operator", "operator", "swap_operands", "element", "element", "cell", "gdim",
          "itype", "sid", "md_value", "md_value", "md_array", "md_array", "md_key"]
 MDS = [{}, {"quadrature_degree": 2}, {"quadrature_degree": 3, "scheme": "default"}, {"tol": 0.1234567890123},
        {"opts": {"a": 1, "b": [1, 2, 3]}}, {"quadrature_rule": "custom", "points": {"__array__": [3, 1, None, 0]}},
@@ -132,6 +132,40 @@ def apply_edit(case, rng):
         if g < 2:
             return None
         ix[q] = (ix[q] + 1) % g
+        itg["expr"] = put(itg["expr"], p, [node[0], node[1], ix])
+        return c, "integrand"
+    if e == "index_pattern":
+        # exchange two entries of one index list (a fixed index with a free one, or two different entries)
+        g = c["world"]["gdim"]
+
+        def ok(r):
+            if r[0] != "index" or len(r[2]) < 2:
+                return False
+            ent = [i for i in r[2] if i not in (":", "...")]
+            return len(ent) >= 2 and len(ent) == len(r[2]) and len({str(i) for i in ent}) >= 2
+
+        ss = sites(itg["expr"], ok)
+        if not ss:
+            # make a site: a matrix field indexed [0, i] contracted with a vector
+            if g < 2 or "m1" not in c["world"]["fields"] or "w0" not in c["world"]["fields"]:
+                return None
+            extra = ["mul", ["index", ["fld", "m1"], [0, "i0"]], ["index", ["fld", "w0"], ["i0"]]]
+            c0 = copy.deepcopy(case)
+            c0["integrals"][k]["expr"] = ["add", c0["integrals"][k]["expr"], extra]
+            if c0["integrals"][k]["expr"][1] and False:
+                pass
+            itg["expr"] = ["add", itg["expr"], ["mul", ["index", ["fld", "m1"], ["i0", 0]], ["index", ["fld", "w0"], ["i0"]]]]
+            # only valid when the original integrand is a scalar without arguments problems: sums keep arity only if
+            # the added term has the same arguments -> use it only for functionals
+            if any(f["kind"] == "arg" for f in c["world"]["fields"].values()):
+                return None
+            return c, "integrand", c0
+        p = ss[int(rng.integers(0, len(ss)))]
+        node = get(itg["expr"], p)
+        ix = list(node[2])
+        pairs = [(a, b_) for a in range(len(ix)) for b_ in range(a + 1, len(ix)) if str(ix[a]) != str(ix[b_])]
+        a, b_ = pairs[int(rng.integers(0, len(pairs)))]
+        ix[a], ix[b_] = ix[b_], ix[a]
         itg["expr"] = put(itg["expr"], p, [node[0], node[1], ix])
         return c, "integrand"
     if e == "operator":
@@ -343,6 +377,10 @@ def check_case(case):
                         if v1.shape != v2.shape or not close(v1, v2, rtol=1e-6, atol=1e-9):
                             differs = True
             except Discard:
+                differs = False
+            except (ValueError, AssertionError, IndexError, KeyError, TypeError):
+                # the edit produced an ill-typed integrand that ufl did not reject (e.g. exchanged indices of a
+                # non-square tensor): not a usable pair
                 differs = False
             provable = differs
     if not provable:
